@@ -57,7 +57,10 @@ check('C01', 'specs/BlobWrite.tla + specs/BlobWriteTrace.tla + harness/c01_blob.
       'reachability witnesses. Leg C: 700 (6000) seeded schedules on real BlobFile objects (1 B .. 2 MiB, 1-3 real writers sending '
       'correct/corrupted/truncated/over-long/unrelated data, single loop callbacks and executor completions interleaved by the '
       'driver) are recorded through the public API and validated by TLC against BlobWriteTrace.tla: every clause on every real '
-      'state, the completion clause at quiescence; what was delivered is computed from what the driver fed, never read back.',
+      'state, the completion clause at quiescence; what was delivered is computed from what the driver fed, never read back. '
+      'The same peer asking again under its address and port, late set_length(), and in-memory BlobBuffer objects in rounds ending '
+      'with the one-shot read (BlobBufferTrace.tla: readable only what was delivered, exactly the content) are part of the schedules; '
+      'a liveness control (the same properties refuted without fairness) guards the liveness checking itself.',
       'Trusted: SHA-384 collision resistance (abstracted); asyncio delivers a connection\'s next chunk after the callbacks of the '
       'previous one; delete() racing with an in-flight save is outside the quantifier (noted in DESIGN).',
       'TLC exhaustive model with liveness + TLC trace validation of real writer schedules', 'DESIGN.md 5/C01')
@@ -145,21 +148,26 @@ check('C08', 'specs/Merkle.tla + harness/c08_merkle.py',
       'mutations can still fold to the root, and emits the verdict computed by a line-by-line transcription of maybe_verify_transaction. Every '
       'emitted case (53 k quick / 316 k thorough) is executed three ways on the real Ledger (proof passed in, fetched via network.get_merkle, and '
       'through request_transactions) with real Transaction objects, an independent hashlib double-SHA-256 tree, and a real Headers object whose '
-      'chain was stored by Headers.connect; tx.is_verified, tx.position and tx.height must equal the specification\'s verdict.',
+      'chain was stored by Headers.connect, and a fourth time on a Transaction object verified genuinely just before (no verdict may survive); half '
+      'of the transactions are handed over in the segwit serialisation. The genuine proof must be accepted, every mutated proof the specification '
+      'rejects must be rejected (refusing an altered proof that happens to fold to the root is right as well); a verified transaction carries the '
+      'supplied position and height.',
       'Trusted: double-SHA-256 collision freedom and that a txid never equals an inner node; mutation=>rejection judged modulo symbolic fold '
       'equality (DESIGN 8: position bits above the branch and right-edge nodes paired with their own duplicate are accepted); local chain validated '
       'for linkage only (PoW is C07); claim_proofs.verify_proof (legacy, uncalled) not covered.',
       'case-analytic TLA+ Merkle/SPV spec, TLC-enumerated proofs and mutations replayed into the real Ledger/Headers', 'DESIGN.md 5/C08')
 
-check('C16', 'specs/Url.tla + specs/ClaimApi.tla + harness/c16_claimurl.py',
+check('C16', 'specs/Url.tla + specs/ClaimApi.tla + specs/LangTag.tla + harness/c16_claimurl.py',
       'The URL grammar is transcribed into a TLA+ automaton. TLC enumerates every string over 13 character classes up to length 5 (6 thorough), '
       'plus grammar-generated URLs at the 1/2/39/40/41-digit and leading-zero boundaries and their one-edit neighbourhoods, checks the parse/print '
       'round-trip laws on the model and emits each case with its expected parts; every case is run through the real URL.parse / str(URL) in 2-3 '
       'concrete spellings (ASCII, BMP range edges, astral). The metadata builder and the Signable envelope are a key-value TLA+ model, checked '
       'exhaustively for all call sequences up to depth 4 (5) over small pools, with reachability witnesses; 500 (3000) TLC-generated API sequences '
       'over full value pools are replayed on real Claim/Stream/Channel/Repost/Collection/Support/Purchase objects and after every call the typed '
-      'accessors, a plain protobuf parse of to_bytes() and from_bytes(to_bytes()) are all compared with the model state. The recorded legacy claims '
-      'must decode to their recorded field values.',
+      'accessors, a plain protobuf parse of to_bytes() and from_bytes(to_bytes()) are all compared with the model state. LangTag.tla sweeps every '
+      'member of the schema\'s language / script / country / UN-region enumerations (read from the protobuf descriptor) through languages.append and '
+      'locations.append with the read-back computed in TLA+ (this found the RE/RO/RS/RU/RW defect). The recorded legacy claims must decode to their '
+      'recorded field values.',
       'Trusted: the google.protobuf wire encoding (message bytes are opaque cells in the model); all characters of one class behave alike (2-3 '
       'representatives per class and position); bounded string length, names, call depth and pools; documented normalisations (tags, USD rounded up, '
       '8/7-decimal truncation, zero = unset) are by design; Stream.update() with its file and mime inspection is outside the model; URL printing '
